@@ -125,7 +125,8 @@ def jobs(tier, seed):
             ("A-DAG", ["push", "trim", "trim_vals"], [0, 1, 2]),
             ("A-DEAD", ["push", "trim", "trim_vals", "determinize", "min_det"], [0]),
             ("A-D3", ["determinize", "min_det"], [0]),
-            ("A-D4", ["determinize"], [0, 1])]
+            ("A-D4", ["determinize"], [0, 1]),
+            ("A-ISO", ["push", "trim", "trim_vals", "determinize", "min_det"], [])]
     if not quick:
         plan += [("A-D4", ["min_det", "push"], [0, 1]), ("A-CYC", ["determinize", "push", "trim", "trim_vals"], [0]), ("A-DAG", ["determinize"], [0, 1, 2, 3]), ("A-DAG2", ["min_det"], [0, 1, 2]), ("A-S1", ["push", "trim", "trim_vals"], []), ("A-EPS2", ["push", "trim", "trim_vals"], [0])]
     for sh, ops_, bits in plan:
